@@ -181,6 +181,7 @@ Value gen_tri_plan(uint64_t seed, const std::string& tier)
     p["same_rhs"] = g.chance(0.5);
     p["kind_b"]  = g.range(0, 4);
     p["diag"]    = g.chance(0.15); // DiagonalSolver instead
+    p["reassign"] = g.chance(0.35);
     p["callers"] = g.chance(0.3) ? g.range(2, 4) : 1;
     p["sim"]     = gen_sim(g, false);
     return p;
@@ -249,6 +250,33 @@ void tri_history(const Value& plan, int salt, Fails& out, std::map<std::string, 
                              idx >= 0 ? x[idx] : 0.0, idx >= 0 ? first_x[idx] : 0.0, sig.c_str()));
         }
     }
+    // the used (factorised) object is given a new system, and a fresh object is given the used one: every later solve
+    // must solve the system the object then holds (the lazy factorisation state travels with the matrix)
+    if (plan.at("reassign").as_bool(false)) {
+        TriSpec tb = gen_tri(g, n, plan.at("cyclic").as_bool(false), (int)plan.at("family").as_int(0),
+                             plan.at("scaled").as_bool(false));
+        SymmetricTridiagonalSolver<double> fresh(n);
+        fill_solver(fresh, tb);
+        SymmetricTridiagonalSolver<double> target(n); // never solved
+        fill_solver(target, tb);
+        target = s; // unfactorised <- factorised (holds system t)
+        s      = fresh; // factorised <- unfactorised (now holds system t2)
+        for (int which = 0; which < 2; which++) {
+            Vector<double> b = rand_vector(n, g.next(), (int)plan.at("kind_b").as_int(0));
+            Vector<double> x = b;
+            fill_junk(t1, 7, 1);
+            fill_junk(t2, 8, 1);
+            if (which == 0)
+                s.solveInPlace(x.begin(), t1.begin(), t2.begin());
+            else
+                target.solveInPlace(x.begin(), t1.begin(), t2.begin());
+            double u = tri_backward_units(which == 0 ? tb : t, to_std(x), to_std(b));
+            if (!(u <= 1.0))
+                out.fail(fmt("C14.solve_after_reassignment_wrong:%s", which == 0 ? "used_object_given_new_system"
+                                                                                : "fresh_object_given_used_one"),
+                         fmt("backward error %.3g x (16 n eps); %s", u, sig.c_str()));
+        }
+    }
 }
 
 void run_tri(const Value& plan, Result& r)
@@ -265,6 +293,8 @@ void run_tri(const Value& plan, Result& r)
         r.probe("repeated_solve");
     if (plan.at("scaled").as_bool())
         r.probe("widely_scaled_rows");
+    if (plan.at("reassign").as_bool(false) && !plan.at("diag").as_bool(false))
+        r.probe("reassigned");
     std::vector<Fails> fl(callers);
     std::vector<std::map<std::string, double>> mx(callers);
     {
